@@ -343,6 +343,44 @@ def run(ctx):
         ctx.unsure("R05.3", "as_frequency_direction_spectrum", "result is not a 2-D spectrum object", fa.loc())
     ctx.absorb(itf)
 
+    # ---- R05.3b every solvable frequency gets a distribution: in the scipy variant the only reason to leave a row at its initial
+    # zeros is a first guess that contains NaN (missing moments).  Skipping on anything else (e.g. the root finder's success flag)
+    # leaves a row that integrates to zero, so the energy at that frequency is lost from the 2-D spectrum.
+    from .fc import scenario_paths, substitute_defs, returned_name as _rn
+    fsc_ = p.get_function(M2 + "mem2_scipy_root_finder")
+    out_name = _rn(fsc_.node)
+    inner_loops = [n for n in own_walk(fsc_.node) if isinstance(n, ast.For) and any(
+        isinstance(x, ast.Call) and ast.unparse(x.func).endswith("optimize.root") for x in ast.walk(n))]
+    inner_loops = [n for n in inner_loops if not any(m is not n and m in list(ast.walk(n)) for m in inner_loops)]
+    if len(inner_loops) == 1 and out_name:
+        def nan_oracle(test, e):
+            # the scenario: the first guess is finite, so `any(isnan(guess))` is False and a mask `~any(isnan(guess))` is True
+            x = substitute_defs(fsc_.node, test, set())
+            flip = False
+            while True:
+                if isinstance(x, ast.Subscript):
+                    x = x.value
+                elif isinstance(x, ast.UnaryOp) and isinstance(x.op, (ast.Invert, ast.Not)):
+                    flip, x = not flip, x.operand
+                else:
+                    break
+            if isinstance(x, ast.Call) and "isnan" in ast.unparse(x) and ast.unparse(x.func).split(".")[-1] in ("any", "isnan"):
+                return flip
+            return None
+
+        def st_event(st):
+            if isinstance(st, ast.Assign) and any(isinstance(t_, ast.Subscript) and isinstance(t_.value, ast.Name) and t_.value.id == out_name
+                                                  for t_ in st.targets):
+                return "store"
+            return None
+        paths = scenario_paths(inner_loops[0].body, {}, nan_oracle, lambda c: None, event_of_stmt=st_event)
+        oks_ = bool(paths) and all("store" in ev_ for _, ev_ in paths)
+        ctx.expect(oks_, "R05.3", "mem2_scipy_root_finder[every solvable frequency is filled]",
+                   "with a finite first guess every path through the per-frequency body stores a distribution",
+                   fsc_.loc(inner_loops[0]), derived=str(sorted({'+'.join(ev_) or 'nothing stored' for _, ev_ in paths})))
+    else:
+        ctx.unsure("R05.3", "mem2_scipy_root_finder[every solvable frequency is filled]", "per-frequency loop around the root finder not found",
+                   fsc_.loc())
     # ---- R05.4 batch independence
     batch_loops_rule(ctx, "R05.4", p, [(EST + "mem.mem", "point"), (M2 + "mem2_scipy_root_finder", "point"),
                                         (M2 + "mem2_scipy_root_finder", "frequency"), (M2 + "mem2_newton", "point"),
@@ -399,7 +437,7 @@ def run(ctx):
     ctx.require_count("R05.7", 1)
     ctx.require_count("R05.1", 3)
     ctx.require_count("R05.2", 4)
-    ctx.require_count("R05.3", 12)
+    ctx.require_count("R05.3", 13)
     ctx.require_count("R05.4", 5)
     ctx.require_count("R05.5", 5)
     ctx.require_count("R05.6", 5)
